@@ -273,7 +273,7 @@ def bad_markers(s):
     """runtime-oracle markers printed by the harness."""
     if s is None:
         return ["no-output"]
-    return [m for m in ("panic", "fault(", "!outside", "!accessor-mismatch", "runaway", "!placement") if m in s and not (m == "fault(" and s.startswith("ok(") and ";fault=" in s)]
+    return [m for m in ("panic", "fault(", "!outside", "!accessor-mismatch", "runaway", "!placement", "!doors-differ") if m in s and not (m == "fault(" and s.startswith("ok(") and ";fault=" in s)]
 
 
 def search_decode(prop, rng, corr_failures, run_cases, limit=10):
